@@ -129,8 +129,52 @@ def run(ctx):
                     reach = fc.reach([c.block], avoid_blocks=users_head)
                     hit = [b_ for b_ in builders if b_ in reach]
                     r3.check(not hit, "reuse=>no-rebuild", "after the reuse insert the iteration ends without building a new pool", "after carrying the pool over, the same iteration still builds a new bb8 pool (the reused pool is replaced / connections dropped)", c.where())
-                # hash covers the whole pool definition: derive(Hash) on config::Pool
-                r3.check(bool(F.has_impl("core::hash::Hash", r"^pgcat::config::Pool$")), "Pool:Hash", "config::Pool implements Hash (derive) so hash_value covers every field", "config::Pool no longer implements Hash")
+                # the "unchanged" test must see every part of the definition: for config::Pool and every pgcat struct
+                # reachable through its field types, Hash::hash feeds each field, untransformed, to the hasher
+                todo = ["pgcat::config::Pool"]
+                done = set()
+                while todo:
+                    an = todo.pop()
+                    if an in done:
+                        continue
+                    done.add(an)
+                    adt = F.adts.get(an)
+                    if adt is None or not adt.get("local"):
+                        continue
+                    for v in adt["variants"]:
+                        for f in v["fields"]:
+                            for m_ in re.findall(r"pgcat::[A-Za-z0-9_:]+", f["ty"]):
+                                todo.append(m_)
+                    hb = F.body("<%s as core::hash::Hash>::hash" % an)
+                    if hb is None:
+                        r3.fail("Hash:%s" % an.split("::")[-1], "%s (part of a pool definition) has no Hash impl in the crate" % an)
+                        continue
+                    if adt["kind"] != "struct":
+                        r3.ok("Hash:%s" % an.split("::")[-1], "enum %s implements Hash" % an)
+                        continue
+                    want = [f["name"] for f in adt["variants"][0]["fields"]]
+                    got = []
+                    transformed = []
+                    for c in hb.calls("re:Hash>::hash$|impl core::hash::Hash for .*>::hash$|^core::hash::Hash::hash$"):
+                        os_ = origins(hb, c.args[0])
+                        fl = [[p_[1:] for p_ in o.proj if p_.startswith(".")] for o in os_ if o.kind in ("place", "param") and o.what == 1]
+                        fl = [x[0] for x in fl if x]
+                        if any(o.kind == "call" for o in os_):
+                            transformed.append(fl[0] if fl else "?")
+                        got.extend(fl[:1])
+                    missing = [f for f in want if f not in got]
+                    r3.check(not missing and not transformed, "Hash:%s" % an.split("::")[-1], "%s::hash feeds every field (%d) to the hasher as is" % (an.split("::")[-1], len(want)),
+                             "the definition hash of %s %s: two pool definitions that differ there compare as unchanged and the old pool is kept after a reload" % (an, ("skips field(s) %s" % missing) if missing else ("hashes a transformed value of %s (e.g. sorted/normalised)" % transformed)))
+                # Config inequality (reload_config's `old_config != new_config`) must look at every field too
+                for an in ("pgcat::config::Config", "pgcat::config::General"):
+                    eb = F.body("<%s as core::cmp::PartialEq>::eq" % an)
+                    adt = F.adts.get(an)
+                    if eb is None or adt is None:
+                        r3.fail("Eq:%s" % an.split("::")[-1], "%s has no PartialEq impl in the crate" % an)
+                        continue
+                    want = {f["name"] for f in adt["variants"][0]["fields"]}
+                    rd = fields_read(eb)
+                    r3.check(want <= rd, "Eq:%s" % an.split("::")[-1], "%s == compares all %d fields" % (an.split("::")[-1], len(want)), "%s == ignores field(s) %s: a reload that changes only those is treated as `no change`" % (an, sorted(want - rd)))
 
     # ---------------- R4
     r4 = ctx.rule("C14-R4", "Client::handle re-resolves its pool (by database,user) after reading the client's message and before every checkout; a removed pool yields an error return, never another pool", floor=4)
